@@ -257,6 +257,8 @@ pub async fn history(mut sim: Sim, o: Opts) -> Result<Value, String> {
                 }
             }
             35..=44 if alive(&sim, a) => {
+                // (a handle the application got while the peer was connected)
+                let mut handle = sim.net(a).peer(sim.peer_id(b));
                 sim.disconnect(a, sim.peer_id(b));
                 if sim.rng.gen_bool(0.5) {
                     // DisconnectNow: an RPC right after the disconnect must be refused
@@ -264,7 +266,13 @@ pub async fn history(mut sim: Sim, o: Opts) -> Result<Value, String> {
                     let net = sim.net(a).clone();
                     let _ = sim::rpc(&sim.run, &net, a as i64, sim.peer_id(b),
                         Request::new(Bytes::from_static(b"x")).with_route("/after-disconnect"), nonce).await;
+                } else if let Some(h) = &mut handle {
+                    // ... and so must one through the old handle: the connection it pins is closed
+                    let nonce = sim.nonce();
+                    let _ = sim::rpc_via_handle(&sim.run, h, a as i64,
+                        Request::new(Bytes::from_static(b"x")).with_route("/after-disconnect-handle"), nonce).await;
                 }
+                drop(handle);
             }
             45..=47 if alive(&sim, a) => {
                 let nonce = sim.nonce();
